@@ -70,6 +70,18 @@ func (t *MemTable) ScanPrefix(prefix []byte) iter.Seq[kv.Entry] {
 	}
 }
 
+// scanPrefixWithDeletes is ScanPrefix but keeps deleted entries so that a merge
+// with older sources lets the tombstone shadow their entries for the key.
+func (t *MemTable) scanPrefixWithDeletes(prefix []byte) iter.Seq[kv.Entry] {
+	return func(yield func(kv.Entry) bool) {
+		for node := range t.zt.AscendPrefix(prefix) {
+			if !yield(newEntryFromNode(node)) {
+				return
+			}
+		}
+	}
+}
+
 // Returns all items in the table including deleted items. A current limitation
 // of go generics is that they can't understand when type variables are
 // satisfied by an interface. So we cast the type to the general kv.Entry type.
